@@ -440,6 +440,49 @@ def rehash_chain(exe, root, seed, stats):
         return [('(%s) [rehash-chain] d1/F not restored but fix exits 0' % cfg, hist)]
     return None
 
+def twin_source(exe, root, seed, stats):
+    """data taken from ANOTHER file of the array (same size and time-stamp as the lost one): S is a cp -p copy of F, later one
+    of its blocks other than the first changes silently; F is lost.  Every block taken from S must match the recorded hash of
+    the block it replaces: F comes back with its own bytes (parity still decodes the changed block) or is unrecoverable"""
+    rng = e2e.Rng(seed)
+    a = e2e.Arr(root, exe, ndisks=2 + rng.below(2), nparity=1 + rng.below(2), ncontent=1, hashsize=rng.choice([16, 16, 8]))
+    s = sim.Sim(a, rng.fork(), weird_names=False)
+    bs = a.block
+    nb = 3 + rng.below(5)
+    F = rng.bytes(nb * bs - rng.below(2) * (1 + rng.below(100)))
+    t = s.tick()
+    td, tn = rng.choice([('d1', 'keep/A-copy.bin'), ('d1', 'keep/A-copy.bin'), ('d2', 'A.bin'), ('d2', 'other.bin')])
+    a.write('d1', 'A.bin', F, t); a.write(td, tn, F, t)
+    for d in a.disks: a.write(d, 'pad', rng.bytes(bs * (1 + rng.below(2))), s.tick())
+    if s.sync().rc != 0:
+        a.destroy(); return None
+    sp = a.path(td, tn)
+    st = os.stat(sp)
+    bad = set()
+    with open(sp, 'r+b') as f:
+        for k in sorted(set(1 + rng.below(nb - 1) for _ in range(1 + rng.below(2)))):
+            off = k * bs + rng.below(min(bs, len(F) - k * bs)); f.seek(off); c = f.read(1); f.seek(off); f.write(bytes([c[0] ^ 0x10])); bad.add(k)
+    os.utime(sp, ns=(st.st_mtime_ns, st.st_mtime_ns))
+    s.log('blocks %s of the twin %s silently changed' % (sorted(bad), sp.replace(a.root, '$A')))
+    os.unlink(a.path('d1', 'A.bin')); s.log('d1/A.bin lost')
+    if rng.chance(1, 2) and a.nparity >= 1:
+        fx.remove_parity(a, 0); s.log('parity level 0 lost as well')
+    stats['twin_source'] = stats.get('twin_source', 0) + 1
+    r = a.cmd('fix')
+    p = a.path('d1', 'A.bin')
+    got = open(p, 'rb').read() if os.path.isfile(p) else None
+    rec_tag = any(t2.startswith('status:recovered:d1:A.bin') for t2 in r.tags)
+    cfg = 'twin-source ndisks=%d nparity=%d hashsize=%d blocks=%d changed=%s seed=%d' % (a.ndisks, a.nparity, a.hashsize, nb, sorted(bad), seed)
+    hist = '\n'.join(s.history)
+    a.destroy()
+    if got is not None and got != F:
+        first = next(i for i in range(min(len(got), len(F))) if got[i] != F[i]) if len(got) == len(F) else -1
+        return [('(%s) [twin-source] fix leaves d1/A.bin with other bytes than recorded (first difference at byte %d), exit %d, reported recovered=%s' % (cfg, first, r.rc, rec_tag),
+                 hist + '\n' + '\n'.join(t2 for t2 in r.tags if t2.split(':')[0] in ('entry', 'hash_import', 'hash_unknown', 'fixed', 'status', 'summary', 'unrecoverable'))[:3000])]
+    if got is None and r.rc == 0:
+        return [('(%s) [twin-source] d1/A.bin not restored but fix exits 0' % cfg, hist)]
+    return None
+
 def directed_known(exe, root, which):
     """the two hand-derived counter-histories (DESIGN section 7), replayed on the binary.
     Returns (violated: bool, text)"""
@@ -498,7 +541,7 @@ def main(tier, seed):
     def job2(i):
         return rep_chain(exe, os.path.join(vlib.scratch(), 'rc%d' % i), seed * 100000 + 35000 + i, stats)
     with ThreadPoolExecutor(vlib.NCPU) as ex:
-        res = list(ex.map(job, range(n))) + list(ex.map(job2, range(nrc))) + list(ex.map(lambda i: zero_chain(exe, os.path.join(vlib.scratch(), 'zc%d' % i), seed * 100000 + 36000 + i, stats), range(nrc))) + list(ex.map(lambda i: lost_parity_chain(exe, os.path.join(vlib.scratch(), 'lp%d' % i), seed * 100000 + 37000 + i, stats), range(nrc))) + list(ex.map(lambda i: rehash_chain(exe, os.path.join(vlib.scratch(), 'rh%d' % i), seed * 100000 + 38000 + i, stats), range(nrc)))
+        res = list(ex.map(job, range(n))) + list(ex.map(job2, range(nrc))) + list(ex.map(lambda i: zero_chain(exe, os.path.join(vlib.scratch(), 'zc%d' % i), seed * 100000 + 36000 + i, stats), range(nrc))) + list(ex.map(lambda i: lost_parity_chain(exe, os.path.join(vlib.scratch(), 'lp%d' % i), seed * 100000 + 37000 + i, stats), range(nrc))) + list(ex.map(lambda i: rehash_chain(exe, os.path.join(vlib.scratch(), 'rh%d' % i), seed * 100000 + 38000 + i, stats), range(nrc))) + list(ex.map(lambda i: twin_source(exe, os.path.join(vlib.scratch(), 'tw%d' % i), seed * 100000 + 39000 + i, stats), range(nrc)))
     k = 0
     for r in res:
         if r:
